@@ -412,6 +412,16 @@ def proof_stage(rep: Report, pid, gen_scripts, modules, driver=None, extra_sourc
                 if not bad and not missing:
                     broken.append('axiom audit: lean failed: ' + raw[-500:])
             n_dis += len(names) + n_ex - len(bad) - len(missing)
+    # thorough tier: independent re-check of the compiled theorem modules with leanchecker
+    if ok and rep.tier == 'thorough' and shutil.which('leanchecker'):
+        checked = []
+        for mod in modules:
+            with Lock('lake'):
+                r = sh(['lake', 'env', 'leanchecker', mod], cwd=LEAN)
+            checked.append({'module': mod, 'ok': r.returncode == 0})
+            if r.returncode != 0:
+                broken.append(f'leanchecker rejects {mod}: {r.stdout[-400:]}')
+        rep.cov['leanchecker'] = checked
     files += [os.path.join(LEAN, p) for p in extra_sources]
     hits = forbidden_hits(files)
     for h in hits:
